@@ -834,7 +834,8 @@ def shard(arg):
     cases = [c for i, c in enumerate(G.enumerate_cases(thorough)) if (i // 48) % nshards == idx]
     rng = random.Random('%s/%s/C14' % (seed, idx))
     cases += [G.random_case(rng) for _ in range(nrandom)]
-    cases += [G.random_lru_case(rng) for _ in range(max(20, nrandom // 2))]
+    if not os.environ.get('C14_NO_LRU'):
+        cases += [G.random_lru_case(rng) for _ in range(max(20, nrandom // 4))]
     if idx == 0:
         cases = corpus_cases() + cases
     os.makedirs(SCRATCH, exist_ok=True)
